@@ -12,6 +12,9 @@ claimed = {
  "C07": ("Switch point of share/group in the vault through the real callback store, rejection of old-epoch partials after the switch, unchanged chain info, refusal of misaligned transition times; chain-hash independence from membership is C17.", "§5 C07"),
  "C08": ("Every DBState transition method and ValidateProposal executed symbolically from an arbitrary stored state against the protocol's transition relation and rule list kept in the harness.", "§5 C08"),
  "C09": ("messageForSigning over single-field perturbations of the terms, and Process.Packet on forged proposals whose signer and listed keys are symbolic choices, with ideal signatures at the kyber boundary.", "§5 C09"),
+ "C13": ("Crash points as a symbolic choice: the process is abandoned at the k-th persistence operation (key-folder writes around DKG completion; bbolt Update before/after commit while beacons are stored) and the real load code runs on what survived.", "§5 C13"),
+ "C15": ("Secrets (long-term key, share) are symbolic inputs; responses, DKG status, participant records and logger arguments are checked for syntactic dependence on them (hash/signature outputs are fresh terms, i.e. declassified); files and the DKG database are checked for owner-only mode at the time secret-dependent content is written.", "§5 C15"),
+ "C19": ("readBeaconID / getBeaconProcessFromRequest / AddBeaconHandler / RemoveBeaconProcess and the HTTP handler table on a multi-chain daemon after a symbolic stop/reload history, request id and chain hash symbolic.", "§5 C19"),
  "C14": ("DKG endpoint functions on arbitrary protobuf-valid packets (every nested pointer nil/non-nil, every oneof variant) run as a request goroutine under a modelled recovery interceptor; the engine itself reports self-deadlocks, blocked-forever requests, escaped panics, leaked locks.", "§5 C14"),
  "C10": ("SyncManager.Sync / tryNode / CheckPastBeacons executed symbolically against peers whose behaviour is a symbolic choice, in every peer order; only verified in-order beacons reach the base store.", "§5 C10"),
  "C11": ("beacon.SyncChain over the real callbackStore and in-memory store with an environment writer appending at every store access point; the interleaving of appends with scan and live phase is a set of symbolic integers.", "§5 C11"),
@@ -25,7 +28,7 @@ na = {}
 for i in range(1, 21):
     pid = "C%02d" % i
     if pid not in claimed:
-        na[pid] = "check not built yet (work in progress; will be claimed or declined with a reason)"
+        na[pid] = {"C06": "the content of C06 (shares lie on the group's public polynomial; any threshold of shares signs) is decided inside github.com/drand/kyber/share/dkg over 255-bit field arithmetic and a third-party multi-round protocol with its own goroutines and timers: symbolic multiplication at that width and that protocol are not encodable within reach of this engine (DESIGN.md section 6). drand-side wiring obligations (canonical participant order, group assembly) are not claimed as C06."}.get(pid, "not claimed")
 checks = []
 for pid, (text, ref) in sorted(claimed.items()):
     checks.append({
